@@ -250,7 +250,7 @@ def r02_5(ctx: Ctx) -> None:
     def has_atom(test: ast.AST, pred) -> bool:
         # the arm's condition is, or has as a disjunct, an expression satisfying pred
         alts = test.values if isinstance(test, ast.BoolOp) and isinstance(test.op, ast.Or) else [test]
-        return any(pred(norm(a)) for a in alts)
+        return any(pred(norm(a)) or pred(norm(q.expand_locals(f, a))) for a in alts)  # a disjunct may be a local that names the test
     ifs = [n for n in walk(f.node) if isinstance(n, ast.If)]
     link = [n for n in ifs if has_atom(n.test, lambda t: t.lstrip("(").startswith("path.is_symlink() and") and "not self.dereference" in t)]
     fil = [n for n in ifs if has_atom(n.test, lambda t: t == "path.is_file()")]
@@ -261,7 +261,7 @@ def r02_5(ctx: Ctx) -> None:
         ctx.check(ok, "R02.5", f, arm[0] if arm else f.node, f"{what} arm archives the entry", f"the {what} arm of the tree walk does not call write()", construct=f"_writeall {what} arm")
     if link:
         alts = link[0].test.values if isinstance(link[0].test, ast.BoolOp) and isinstance(link[0].test.op, ast.Or) else [link[0].test]
-        ok = any(norm(a).strip("()") == "path.is_symlink() and (not self.dereference" or norm(a) == "path.is_symlink() and (not self.dereference)" for a in alts)
+        ok = any(norm(x).strip("()") == "path.is_symlink() and (not self.dereference" or norm(x) == "path.is_symlink() and (not self.dereference)" for a in alts for x in (a, q.expand_locals(f, a)))
         ctx.check(ok, "R02.5", f, link[0].test, "links are archived as links unless dereference is on", "the link arm is not `is_symlink() and not dereference`")
     if dr:
         loops = [n for s in dr[0].body for n in ast.walk(s) if isinstance(n, ast.For)]
